@@ -45,6 +45,14 @@ RULES = [
     'transpose, basic slices, asarray, iteration over a list argument) from a parameter of a public function, nor, for a private '
     'helper, from what its call sites pass; an index that is certainly an array (np.where(..)[0], comparison, arithmetic) makes a '
     'copy; otherwise Unknown (the caller\'s data would be overwritten: hidden-state channel). overwrite_ on a non-SciPy call is Unknown',
+    'in-place modification (x op= .., x[..] = .., x[..] op= .., del x[..], x.sort / resize / fill / append / extend / .., '
+    'np.<f>(.., out=x), np.copyto / put / place(x, ..), shuffle(x)) of something that may share memory with an argument of the user is '
+    'Unknown (hidden-state channel). May-alias: views (.T, reshape, transpose, asarray / asanyarray, basic slices), iteration over / '
+    'zip of a list argument, teneva helpers that hand their argument back (return-alias summaries, e.g. grid_prep_opt(s)); a plain '
+    'assignment `x = fresh` that dominates the statement (same or enclosing block, or guarded by a test that also guards the '
+    'statement) kills earlier bindings; returns guarded by _is_num / isinstance scalar / is None are scalars; documented exceptions: '
+    'output dictionaries info / cache, `Y if inplace else copy(Y)`, parameters the docstring types as int / float / bool / str, '
+    'branches that only an undocumented boolean parameter at a non-default value reaches',
     'implicit exceptions raised inside NumPy are not modelled outside try blocks (they abort the call and are functions of '
     'the data); inside a try block every statement may raise',
 ]
@@ -1561,6 +1569,7 @@ class Tr:
         out += self.default_value_events()
         out += self.uninit_events()
         out += self.overwrite_events()
+        out += self.inplace_events()
         return seq(out + self.stmts(f.node.body))
 
     # ---- overwrite_*=True on an operand that may share memory with an argument ----------------------------------------
@@ -1582,25 +1591,44 @@ class Tr:
             if not isinstance(x, (ast.FunctionDef, ast.AsyncFunctionDef, ast.Lambda, ast.ClassDef)):
                 todo.extend(ast.iter_child_nodes(x))
 
-    def _defs(self, name):
-        """right-hand sides bound to `name` in this function: ('val', expr) | ('elem', iterable expr) | ('param',)"""
+    def _top_index(self):
+        """id(node) -> index of the top-level statement of the function body that contains it"""
+        if getattr(self, '_ti', None) is None:
+            self._ti = {}
+            if self.fn.kind != 'lambda':
+                for k, st in enumerate(self.fn.node.body):
+                    self._ti[id(st)] = k
+                    for x in self._own_nodes(st):
+                        self._ti[id(x)] = k
+        return self._ti
+
+    def _defs(self, name, at=None):
+        """bindings of `name` in this function that may reach top-level statement number `at`:
+        ('val', expr) | ('elem', iterable expr) | ('param',) | ('aug',).  A plain assignment `name = ..` at the top level of the
+        function body (unconditional) before `at` kills the parameter binding and every earlier binding."""
         f = self.fn
+        ti = self._top_index()
         out = []
         if name in f.params + f.kwonly or name in (f.vararg, f.kwarg):
-            out.append(('param',))
+            out.append((-1, False, ('param',)))
+        if f.kind == 'lambda':
+            return [d for _, _, d in out]
+        top = {id(st) for st in f.node.body}
         for n in self._own_nodes(f.node):
+            k = ti.get(id(n), 0)
             if isinstance(n, ast.Assign):
                 for t in n.targets:
                     if isinstance(t, ast.Name) and t.id == name:
-                        out.append(('val', n.value))
+                        out.append((k, id(n) in top, ('val', n.value)))
                     elif isinstance(t, (ast.Tuple, ast.List)) and name in self.target_names(t):
                         if isinstance(n.value, (ast.Tuple, ast.List)) and len(n.value.elts) == len(t.elts):
                             for te, ve in zip(t.elts, n.value.elts):
                                 if name in self.target_names(te):
-                                    out.append(('val', ve))
+                                    out.append((k, id(n) in top, ('val', ve)))
                         else:
-                            out.append(('elem', n.value))
-            elif isinstance(n, (ast.For, ast.comprehension)) and name in self.target_names(n.target):
+                            pos = next((q for q, te in enumerate(t.elts) if name in self.target_names(te)), None)
+                            out.append((k, id(n) in top, ('elem', n.value, pos)))
+            elif isinstance(n, ast.For) and name in self.target_names(n.target):
                 it, tg = n.iter, n.target
                 if isinstance(it, ast.Call) and isinstance(it.func, ast.Name) and it.func.id == 'enumerate' and it.args and \
                         isinstance(tg, ast.Tuple) and len(tg.elts) == 2:
@@ -1611,14 +1639,148 @@ class Tr:
                         and len(tg.elts) == len(it.args):
                     for a, g in zip(it.args, tg.elts):
                         if name in self.target_names(g):
-                            out.append(('elem', a))
+                            out.append((k, False, ('elem', a, None)))
                 elif isinstance(it, ast.Call) and isinstance(it.func, ast.Name) and it.func.id == 'range':
                     continue
                 else:
-                    out.append(('elem', it))
+                    out.append((k, False, ('elem', it, None)))
             elif isinstance(n, (ast.AugAssign, ast.AnnAssign)) and isinstance(n.target, ast.Name) and n.target.id == name:
-                out.append(('aug',))
-        return out
+                out.append((k, False, ('aug',)))
+        if at is not None:
+            kills = [k for k, unc, d in out if unc and k < at and d[0] == 'val']
+            if kills:
+                kk = max(kills)
+                out = [(k, unc, d) for k, unc, d in out if k >= kk]
+        return [d for _, _, d in out]
+
+    def _structure(self):
+        """(dead, paths): dead = ids of nodes in branches that only an UNDOCUMENTED boolean parameter at a non-default value
+        reaches (the property ranges over the documented interface); paths[id(stmt)] = ((id(block), index), ..) outer to inner"""
+        if getattr(self, '_struct', None) is not None:
+            return self._struct
+        f = self.fn
+        dead, paths = set(), {}
+        self._guards = {}          # id(stmt) -> tuple of ast.dump(test) of the enclosing `if test:` bodies (conjuncts split)
+        self._parent_if = {}       # id(stmt directly in an if body) -> the If node
+        if f.kind != 'lambda':
+            doc = ast.get_docstring(f.node) or ''
+            import re as _re
+
+            def undocumented_default(nm):
+                if not doc or nm not in f.defaults or not isinstance(f.defaults[nm], ast.Constant) or \
+                        not isinstance(f.defaults[nm].value, bool):
+                    return None
+                if _re.search(r'^\s*' + _re.escape(nm) + r'\s*\(', doc, flags=_re.M):
+                    return None
+                return f.defaults[nm].value
+
+            def conj(t):
+                if isinstance(t, ast.BoolOp) and isinstance(t.op, ast.And):
+                    return [d for v in t.values for d in conj(v)]
+                return [ast.dump(t)]
+
+            def walk(block, path, guards=(), pif=None):
+                for k, st in enumerate(block):
+                    pth = path + ((id(block), k),)
+                    paths[id(st)] = pth
+                    self._guards[id(st)] = guards
+                    if pif is not None:
+                        self._parent_if[id(st)] = pif
+                    for x in self._own_nodes(st):
+                        if not isinstance(x, ast.stmt):
+                            paths.setdefault(id(x), pth)
+                            self._guards.setdefault(id(x), guards)
+                    if isinstance(st, ast.If):
+                        t, neg = st.test, False
+                        if isinstance(t, ast.UnaryOp) and isinstance(t.op, ast.Not):
+                            t, neg = t.operand, True
+                        dv = undocumented_default(t.id) if isinstance(t, ast.Name) else None
+                        if dv is not None:
+                            taken_body = (dv != neg)
+                            for b in (st.orelse if taken_body else st.body):
+                                dead.add(id(b))
+                                dead.update(id(x) for x in self._own_nodes(b))
+                    for fld in ('body', 'orelse', 'finalbody'):
+                        b = getattr(st, fld, None)
+                        if isinstance(b, list) and b and isinstance(b[0], ast.stmt) and not isinstance(st, (ast.FunctionDef, ast.ClassDef)):
+                            if isinstance(st, ast.If) and fld == 'body':
+                                walk(b, pth, guards + tuple(conj(st.test)), st)
+                            else:
+                                walk(b, pth, guards)
+                    for h in getattr(st, 'handlers', []) or []:
+                        walk(h.body, pth, guards)
+            walk(f.node.body, ())
+        self._struct = (dead, paths)
+        return self._struct
+
+    def _dominating_defs(self, name, node):
+        """bindings of `name` that may reach `node`: an assignment `name = ..` in the block of node's statement or an enclosing
+        block, before it, kills the parameter binding and all lexically earlier bindings (dead branches are ignored)"""
+        f = self.fn
+        dead, paths = self._structure()
+        mp = paths.get(id(node), ())
+        cands = []
+        if name in f.params + f.kwonly or name in (f.vararg, f.kwarg):
+            cands.append(((-1, -1), ('param',), None))
+        for n in self._own_nodes(f.node):
+            if id(n) in dead:
+                continue
+            pos_ = (getattr(n, 'lineno', 0), getattr(n, 'col_offset', 0))
+            if isinstance(n, ast.Assign):
+                for t in n.targets:
+                    if isinstance(t, ast.Name) and t.id == name:
+                        cands.append((pos_, ('val', n.value), n))
+                    elif isinstance(t, (ast.Tuple, ast.List)) and name in self.target_names(t):
+                        if isinstance(n.value, (ast.Tuple, ast.List)) and len(n.value.elts) == len(t.elts):
+                            for te, ve in zip(t.elts, n.value.elts):
+                                if name in self.target_names(te):
+                                    cands.append((pos_, ('val', ve), n))
+                        else:
+                            q = next((q for q, te in enumerate(t.elts) if name in self.target_names(te)), None)
+                            cands.append((pos_, ('elem', n.value, q), n))
+            elif isinstance(n, ast.For) and name in self.target_names(n.target):
+                it, tg = n.iter, n.target
+                if isinstance(it, ast.Call) and isinstance(it.func, ast.Name) and it.func.id == 'enumerate' and it.args and \
+                        isinstance(tg, ast.Tuple) and len(tg.elts) == 2:
+                    if name in self.target_names(tg.elts[0]):
+                        cands.append((pos_, ('val', ast.Constant(value=0)), None))
+                        continue
+                    it, tg = it.args[0], tg.elts[1]
+                if isinstance(it, ast.Call) and isinstance(it.func, ast.Name) and it.func.id == 'zip' and isinstance(tg, ast.Tuple) \
+                        and len(tg.elts) == len(it.args):
+                    for a, g in zip(it.args, tg.elts):
+                        if name in self.target_names(g):
+                            cands.append((pos_, ('elem', a, None), None))
+                elif isinstance(it, ast.Call) and isinstance(it.func, ast.Name) and it.func.id == 'range':
+                    cands.append((pos_, ('val', ast.Constant(value=0)), None))
+                else:
+                    cands.append((pos_, ('elem', it, None), None))
+            elif isinstance(n, (ast.AugAssign, ast.AnnAssign)) and isinstance(n.target, ast.Name) and n.target.id == name:
+                cands.append((pos_, ('aug',), None))
+        # dominating plain assignments
+        best = None
+        for pos_, d, n in cands:
+            if n is None or not isinstance(n, ast.Assign):
+                continue
+            ap = paths.get(id(n))
+            if not ap or len(ap) > len(mp):
+                continue
+            if ap[:-1] == mp[:len(ap) - 1] and ap[-1][0] == mp[len(ap) - 1][0] and ap[-1][1] < mp[len(ap) - 1][1]:
+                if best is None or pos_ > best:
+                    best = pos_
+                continue
+            # `if g: x = x.copy()` ... `if g and ..: x[..] = ..`: the assignment is guarded by a test that also guards the node
+            pif = self._parent_if.get(id(n))
+            if pif is not None and len(ap) >= 2:
+                ip = paths.get(id(pif))
+                gs = set(self._guards.get(id(node), ()))
+                if ip and len(ip) <= len(mp) and ip[:-1] == mp[:len(ip) - 1] and ip[-1][0] == mp[len(ip) - 1][0] and \
+                        ip[-1][1] < mp[len(ip) - 1][1] and ast.dump(pif.test) in gs:
+                    if best is None or pos_ > best:
+                        best = pos_
+        if best is not None:
+            cands = [c for c in cands if c[0] >= best]
+        return [d + (n,) for _, d, n in cands]
 
     def _index_is_basic(self, ix, seen):
         """may this subscript be basic indexing (a view)?  False only if it certainly is advanced indexing (a copy)"""
@@ -1642,56 +1804,175 @@ class Tr:
             return True
         return True
 
-    def may_alias(self, e, seen=frozenset(), depth=0):
-        """-> None if the value of e is certainly a fresh array, else a short description of the argument it may share memory with"""
-        if e is None or isinstance(e, (ast.Constant, ast.BinOp, ast.UnaryOp, ast.Compare, ast.BoolOp, ast.List, ast.Tuple, ast.Dict,
-                                       ast.ListComp, ast.JoinedStr, ast.Lambda)):
-            return None
+    def ret_alias_params(self):
+        """parameters of this function that a returned value may share memory with (per position of a returned tuple:
+        {position or None: set of parameter names})"""
+        f = self.fn
+        cache = self.P.__dict__.setdefault('_ret_alias', {})
+        if f.qname in cache:
+            return cache[f.qname]
+        cache[f.qname] = {}                                       # recursion guard
+        res = {}
+        if f.kind == 'lambda':
+            res[None] = self.alias_params(f.node.body)
+        else:
+            scalar_returns = set()
+
+            def guard_name(t):
+                """x such that the test t can only hold for a scalar / None x"""
+                if isinstance(t, ast.BoolOp):
+                    gs = {guard_name(v) for v in t.values}
+                    return gs.pop() if len(gs) == 1 and None not in gs and isinstance(t.op, (ast.Or, ast.And)) else None
+                if isinstance(t, ast.Call) and t.args and isinstance(t.args[0], ast.Name):
+                    nm = t.func.attr if isinstance(t.func, ast.Attribute) else t.func.id if isinstance(t.func, ast.Name) else ''
+                    if nm == '_is_num':
+                        return t.args[0].id
+                    if nm == 'isinstance' and len(t.args) == 2:
+                        ts = t.args[1].elts if isinstance(t.args[1], ast.Tuple) else [t.args[1]]
+                        if all(isinstance(x, ast.Name) and x.id in ('int', 'float', 'bool', 'str', 'complex') for x in ts):
+                            return t.args[0].id
+                if isinstance(t, ast.Compare) and len(t.ops) == 1 and isinstance(t.ops[0], ast.Is) and isinstance(t.left, ast.Name) and \
+                        isinstance(t.comparators[0], ast.Constant) and t.comparators[0].value is None:
+                    return t.left.id
+                return None
+            for n in self._own_nodes(f.node):
+                if isinstance(n, ast.If):
+                    g = guard_name(n.test)
+                    if g:
+                        for st in n.body:
+                            for x in [st] + list(self._own_nodes(st)):
+                                if isinstance(x, ast.Return) and isinstance(x.value, ast.Name) and x.value.id == g:
+                                    scalar_returns.add(id(x))
+            for n in self._own_nodes(f.node):
+                if isinstance(n, ast.Return) and n.value is not None and id(n) not in scalar_returns:
+                    at = n
+                    if isinstance(n.value, ast.Tuple):
+                        for q, e in enumerate(n.value.elts):
+                            res.setdefault(q, set()).update(self.alias_params(e, at=at))
+                    else:
+                        res.setdefault(None, set()).update(self.alias_params(n.value, at=at))
+        cache[f.qname] = res
+        return res
+
+    def alias_params(self, e, seen=frozenset(), at=None, pos=None):
+        """set of parameters of THIS function (or 'self.<field>') whose memory the value of e may share; empty = certainly fresh.
+        pos: e is unpacked and only component number pos matters"""
+        if e is None or isinstance(e, (ast.Constant, ast.BinOp, ast.UnaryOp, ast.Compare, ast.BoolOp, ast.Dict, ast.ListComp,
+                                       ast.JoinedStr, ast.Lambda, ast.GeneratorExp, ast.SetComp, ast.DictComp)):
+            return set()
+        if isinstance(e, (ast.List, ast.Tuple)):
+            if pos is not None and pos < len(e.elts):
+                return self.alias_params(e.elts[pos], seen, at)
+            return set()                                          # a new container
         if isinstance(e, ast.IfExp):
-            return self.may_alias(e.body, seen, depth) or self.may_alias(e.orelse, seen, depth)
+            if isinstance(e.test, ast.Name) and e.test.id == 'inplace':
+                return self.alias_params(e.orelse, seen, at)      # documented: `Y if inplace else copy(Y)`
+            return self.alias_params(e.body, seen, at) | self.alias_params(e.orelse, seen, at)
         if isinstance(e, ast.Starred):
-            return self.may_alias(e.value, seen, depth)
+            return self.alias_params(e.value, seen, at)
         if isinstance(e, ast.Attribute):
             if e.attr in self.VIEW_ATTRS:
-                return self.may_alias(e.value, seen, depth)
+                return self.alias_params(e.value, seen, at)
             if isinstance(e.value, ast.Name) and e.value.id == 'self':
-                return f'field self.{e.attr}'
-            return None
+                return {f'self.{e.attr}'}
+            return set()
         if isinstance(e, ast.Subscript):
             if not self._index_is_basic(e.slice, frozenset()):
-                return None
-            return self.may_alias(e.value, seen, depth)
+                return set()
+            return self.alias_params(e.value, seen, at)
         if isinstance(e, ast.Call):
             d = self.dotted(e.func)
             if d in self.VIEW_FUNCS and e.args:
-                return self.may_alias(e.args[0], seen, depth)
-            if d is None and isinstance(e.func, ast.Attribute) and e.func.attr in self.VIEW_METHODS:
+                return self.alias_params(e.args[0], seen, at)
+            if d is None and isinstance(e.func, ast.Attribute) and e.func.attr in self.VIEW_METHODS and \
+                    not (isinstance(e.func.value, ast.Name) and self.m.imports.get(e.func.value.id) == 'teneva'):
                 if e.func.attr == 'astype' and not any(k.arg == 'copy' for k in e.keywords):
-                    return None
-                return self.may_alias(e.func.value, seen, depth)
-            return None                                           # any other call returns a new array
+                    return set()
+                return self.alias_params(e.func.value, seen, at)
+            r = self.resolve_fn(e.func)
+            if r and r[0] == 'fn':
+                F = r[1]
+                ra = Tr(self.P, F).ret_alias_params()
+                ps = set()
+                for q, names in ra.items():
+                    if pos is None or q is None or q == pos:
+                        ps |= names
+                out = set()
+                for pn in ps:
+                    arg = None
+                    if pn in F.all_params and F.all_params.index(pn) < len(e.args) and not any(isinstance(a, ast.Starred) for a in e.args):
+                        arg = e.args[F.all_params.index(pn)]
+                    for k in e.keywords:
+                        if k.arg == pn:
+                            arg = k.value
+                    if arg is not None:
+                        out |= self.alias_params(arg, seen, at)
+                return out
+            return set()                                          # any other call returns a new array
         if isinstance(e, ast.Name):
+            if isinstance(at, ast.AST):
+                key = (e.id, id(at))
+                if key in seen or len(seen) > 60:
+                    return set()
+                seen = seen | {key}
+                out = set()
+                for dfn in self._dominating_defs(e.id, at):
+                    dn = dfn[-1] if isinstance(dfn[-1], ast.AST) else at     # inside the right-hand side: the bindings BEFORE it
+                    if dfn[0] == 'param':
+                        out.add(e.id)
+                    elif dfn[0] == 'val':
+                        out |= self.alias_params(dfn[1], seen, dn)
+                    elif dfn[0] == 'elem':
+                        out |= self.alias_params(dfn[1], seen, dn, pos=dfn[2])
+                return out
             if e.id in seen:
-                return None
+                return set()
             seen = seen | {e.id}
-            for dfn in self._defs(e.id):
+            out = set()
+            for dfn in self._defs(e.id, at):
                 if dfn[0] == 'param':
-                    r = self._param_alias(e.id, depth)
-                    if r:
-                        return r
-                elif dfn[0] in ('val', 'elem'):
-                    r = self.may_alias(dfn[1], seen, depth)
-                    if r:
-                        return r
-            return None
+                    out.add(e.id)
+                elif dfn[0] == 'val':
+                    out |= self.alias_params(dfn[1], seen, at)
+                elif dfn[0] == 'elem':
+                    out |= self.alias_params(dfn[1], seen, at, pos=dfn[2])
+            return out
+        return set()
+
+    def may_alias(self, e, seen=frozenset(), depth=0, at=None):
+        """-> None if the value of e is certainly a fresh object, else a short description of the argument it may share memory with"""
+        for pn in sorted(self.alias_params(e, at=at)):
+            r = self._param_alias(pn, depth) if not pn.startswith('self.') else f'field {pn}'
+            if r:
+                return r
         return None
+
+    SCALAR_DOC = {'int', 'float', 'bool', 'str', 'function', 'callable', 'complex', 'string', 'number', 'type'}
+
+    def _doc_scalar(self, f, pname):
+        """the docstring types parameter pname as a plain scalar (int / float / bool / str): it cannot be modified in place"""
+        doc = ast.get_docstring(f.node) if f.kind != 'lambda' else None
+        if not doc:
+            return False
+        import re as _re
+        m = _re.search(r'^\s*' + _re.escape(pname) + r'\s*\(([^)]*)\)\s*:', doc, flags=_re.M)
+        if not m:
+            return False
+        ts = [t.strip().lower() for t in _re.split(r'[,/]| or ', m.group(1)) if t.strip()]
+        return bool(ts) and all(t in self.SCALAR_DOC for t in ts)
 
     def _param_alias(self, pname, depth):
         """parameter pname of this function: an argument of the user (exported / public function), or -- for a private helper --
         whatever the call sites inside teneva pass"""
         f = self.fn
-        public = f.exported or not (f.node.name.startswith('_') or f.parent is not None) if f.kind != 'lambda' else False
-        if public or depth >= 3 or f.kind == 'lambda':
+        if f.kind == 'lambda':
+            return f'parameter {pname} of {f.qname}'
+        if self._doc_scalar(f, pname):
+            return None
+        if pname == 'self':
+            return None
+        public = f.exported or not (f.node.name.startswith('_') or f.parent is not None)
+        if public or depth >= 3:
             return f'parameter {pname} of {f.qname}'
         sites = 0
         for g in self.P.fns.values():
@@ -1709,8 +1990,9 @@ class Tr:
                     continue
                 sites += 1
                 arg = None
-                if pname in f.params and f.params.index(pname) < len(c.args) and not any(isinstance(a, ast.Starred) for a in c.args):
-                    arg = c.args[f.params.index(pname)]
+                ps = f.all_params if isinstance(fn_, ast.Attribute) and isinstance(fn_.value, ast.Name) and fn_.value.id == 'self' else f.params
+                if pname in ps and ps.index(pname) < len(c.args) and not any(isinstance(a, ast.Starred) for a in c.args):
+                    arg = c.args[ps.index(pname)]
                 for k in c.keywords:
                     if k.arg == pname:
                         arg = k.value
@@ -1718,12 +2000,85 @@ class Tr:
                         return f'parameter {pname} of {f.qname} (call with ** at {g.qname})'
                 if arg is None:
                     continue
-                r = sub.may_alias(arg, frozenset(), depth + 1)
+                r = sub.may_alias(arg, frozenset(), depth + 1, at=c)
                 if r:
                     return f'parameter {pname} of {f.qname} <- {r}'
         if sites == 0:
             return f'parameter {pname} of {f.qname} (no call site found)'
         return None
+
+    # ---- in-place modification of something that may be an argument of the user ------------------------------------------
+    INPLACE_METHODS = {'sort', 'resize', 'fill', 'put', 'itemset', 'partition', 'setfield', 'setflags', 'append', 'extend', 'insert',
+                       'remove', 'reverse', 'clear', 'pop', 'popitem', 'update', 'setdefault'}
+    INPLACE_FUNCS = {'numpy.copyto', 'numpy.put', 'numpy.place', 'numpy.putmask', 'numpy.fill_diagonal', 'numpy.put_along_axis'}
+    OUTPUT_PARAMS = {'info', 'cache'}       # documented output dictionaries of cross / als / als_func / cache_to_data
+
+    def inplace_events(self):
+        """x op= .., x[..] = .., x[..] op= .., x.sort() / .resize / .fill / .append .., np.<f>(.., out=x), np.copyto(x, ..) where x
+        may share memory with an argument of the user (through views, asanyarray, teneva helpers that hand their argument back such
+        as grid_prep_opt(s), iteration over a list argument): later calls on the same objects see other data -- Unknown.
+        Documented exceptions: the output dictionaries info / cache; `inplace=True`; parameters the docstring types as scalars."""
+        f = self.fn
+        if f.kind == 'lambda':
+            return []
+        out = []
+        ti = self._top_index()
+
+        def base(t):
+            while isinstance(t, (ast.Subscript, ast.Attribute)) and not (isinstance(t, ast.Attribute) and isinstance(t.value, ast.Name)
+                                                                          and t.value.id == 'self'):
+                if isinstance(t, ast.Attribute) and t.attr not in self.VIEW_ATTRS:
+                    return None
+                t = t.value
+            return t
+
+        def check(node, target, what):
+            b = base(target)
+            if b is None or not isinstance(b, ast.Name):
+                return
+            if self.is_dict(b.id) or self.is_gen(b.id) or b.id in self.OUTPUT_PARAMS:
+                return
+            if id(node) in self._structure()[0]:
+                return
+            ps = self.alias_params(b, at=node)
+            # a subscript of a list element etc.: x[k][..] = .. modifies the element, which is an alias as well
+            for pn in sorted(ps):
+                if pn in self.OUTPUT_PARAMS or pn.startswith('self.'):
+                    continue
+                r = self._param_alias(pn, 0)
+                if r:
+                    out.append(self.U(node, f'{what}: the target may share memory with {r} (the argument is modified in place; later '
+                                            f'calls on the same object see other data)'))
+                    return
+        for n in self._own_nodes(f.node):
+            if isinstance(n, ast.AugAssign):
+                if isinstance(n.target, ast.Name) and isinstance(n.value, (ast.Constant, ast.JoinedStr)) and \
+                        isinstance(getattr(n.value, 'value', ''), str):
+                    continue                                      # a string is immutable: this rebinds the name
+                check(n, n.target, 'augmented assignment')
+            elif isinstance(n, ast.Assign):
+                for t in n.targets:
+                    for tt in (t.elts if isinstance(t, (ast.Tuple, ast.List)) else [t]):
+                        if isinstance(tt, ast.Subscript):
+                            check(n, tt, 'item / slice assignment')
+            elif isinstance(n, ast.Delete):
+                for t in n.targets:
+                    if isinstance(t, ast.Subscript):
+                        check(n, t, 'del of an item')
+            elif isinstance(n, ast.Call):
+                d = self.dotted(n.func)
+                if d in self.INPLACE_FUNCS and n.args:
+                    check(n, n.args[0], f'{d}(x, ..)')
+                for k in n.keywords:
+                    if k.arg == 'out' and not (isinstance(k.value, ast.Constant) and k.value.value is None):
+                        for tt in (k.value.elts if isinstance(k.value, ast.Tuple) else [k.value]):
+                            check(n, tt, 'out= argument')
+                if d is None and isinstance(n.func, ast.Attribute) and n.func.attr in self.INPLACE_METHODS and \
+                        not (isinstance(n.func.value, ast.Name) and self.scope_of(n.func.value.id) is None):
+                    check(n, n.func.value, f'in-place method .{n.func.attr}()')
+                if d is None and isinstance(n.func, ast.Attribute) and n.func.attr == 'shuffle' and n.args:
+                    check(n, n.args[0], 'shuffle(x)')
+        return out
 
     def overwrite_events(self):
         """sp.linalg.<routine>(.., overwrite_a / overwrite_b / overwrite_x = True): LAPACK may write into the operand; if the
@@ -1752,7 +2107,7 @@ class Tr:
                     idx = [1]
                 for j in idx:
                     if j < len(c.args):
-                        r = self.may_alias(c.args[j])
+                        r = self.may_alias(c.args[j], at=c)
                         if r:
                             out.append(self.U(c, f'{d}(.., {k.arg}=True): the operand may share memory with {r} (the argument is '
                                                  f'overwritten; later calls on the same object see other data)'))
